@@ -108,15 +108,28 @@ func propC15(a *Analysis, r *Registry) {
 			fc := X.FCFor(fn)
 			env := X.EnvFor(fn, "xs", "ys", "weights", "terms")
 			mat := "gonum.org/v1/gonum/mat."
-			one := func(callee string) *ssa.Call {
-				var found []*ssa.Call
-				fc.Ctx.Instrs(func(in ssa.Instruction) {
-					if c, ok := in.(*ssa.Call); ok {
-						if f := c.Call.StaticCallee(); f != nil && strings.HasSuffix(f.String(), callee) {
-							found = append(found, c)
+			// the steps may be made in LinearLeastSquares itself or in helpers it
+			// delegates to (building the design matrix, applying the weights): every
+			// site is looked up in the function and its bound callees, and read in
+			// the context it lives in
+			type site struct {
+				fc   *FC
+				Call *ssa.CallCommon
+				in   *ssa.Call
+			}
+			fcs := fc.BoundCallees(2)
+			one := func(callee string) site {
+				var found []site
+				for _, sfc := range fcs {
+					sfc := sfc
+					sfc.Ctx.Instrs(func(in ssa.Instruction) {
+						if c, ok := in.(*ssa.Call); ok {
+							if f := c.Call.StaticCallee(); f != nil && strings.HasSuffix(f.String(), callee) {
+								found = append(found, site{sfc, c.Common(), c})
+							}
 						}
-					}
-				})
+					})
+				}
 				if len(found) != 1 {
 					anchorFail("expected exactly one call to %s, found %d", callee, len(found))
 				}
@@ -124,13 +137,16 @@ func propC15(a *Analysis, r *Registry) {
 			}
 			// design matrix
 			var xtv *RF
-			fc.Ctx.Instrs(func(in ssa.Instruction) {
-				if ms, ok := in.(*ssa.MakeSlice); ok && xtv == nil {
-					if fc.Val(ms.Len).Equal(env.MustParse("len(terms)*len(xs)")) {
-						xtv = fc.Val(ms)
+			for _, sfc := range fcs {
+				sfc := sfc
+				sfc.Ctx.Instrs(func(in ssa.Instruction) {
+					if ms, ok := in.(*ssa.MakeSlice); ok && xtv == nil {
+						if sfc.Val(ms.Len).Equal(env.MustParse("len(terms)*len(xs)")) {
+							xtv = sfc.Val(ms)
+						}
 					}
-				}
-			})
+				})
+			}
 			if xtv == nil {
 				r.Fail(rB, name+"/xTVals", b.pos(fn), "no backing array of len(terms)*len(xs) for the design matrix")
 				return
@@ -139,66 +155,71 @@ func propC15(a *Analysis, r *Registry) {
 			XT := S.MakeFn(mat+"NewDense", env.MustParse("len(terms)"), env.MustParse("len(xs)"), xtv)
 			// the term call
 			var termCall *ssa.Call
-			fc.Ctx.Instrs(func(in ssa.Instruction) {
-				if c, ok := in.(*ssa.Call); ok && c.Call.StaticCallee() == nil && !c.Call.IsInvoke() {
-					if _, isB := c.Call.Value.(*ssa.Builtin); !isB {
-						termCall = c
+			tfc := fc
+			for _, sfc := range fcs {
+				sfc := sfc
+				sfc.Ctx.Instrs(func(in ssa.Instruction) {
+					if c, ok := in.(*ssa.Call); ok && c.Call.StaticCallee() == nil && !c.Call.IsInvoke() {
+						if _, isB := c.Call.Value.(*ssa.Builtin); !isB {
+							termCall, tfc = c, sfc
+						}
 					}
-				}
-			})
+				})
+			}
 			if termCall == nil {
 				r.Fail(rB, name+"/term-call", b.pos(fn), "the basis functions are never called")
 				return
 			}
-			tf := fc.Val(termCall.Call.Value).SingleAtom()
+			tf := tfc.Val(termCall.Call.Value).SingleAtom()
 			if tf == nil || tf.Name != "idx" || !tf.Args[0].Equal(env.Vars["terms"].RF) {
 				r.Fail(rB, name+"/term-call", a.W.InstrPos(termCall), "the called function is not terms[i]")
 				return
 			}
 			env.Set("i", tf.Args[1], nil)
-			b.Eq(rB, name+"/term-call/xs", a.W.InstrPos(termCall), fc.Val(termCall.Call.Args[0]), env, "xs")
-			b.Eq(rB, name+"/term-call/row", a.W.InstrPos(termCall), fc.Val(termCall.Call.Args[1]), env, "slice(xTVals, i*len(xs), i*len(xs)+len(xs), _)")
+			b.Eq(rB, name+"/term-call/xs", a.W.InstrPos(termCall), tfc.Val(termCall.Call.Args[0]), env, "xs")
+			b.Eq(rB, name+"/term-call/row", a.W.InstrPos(termCall), tfc.Val(termCall.Call.Args[1]), env, "slice(xTVals, i*len(xs), i*len(xs)+len(xs), _)")
 			// XTW and the products
 			mul, mulv, solve := one("mat.Dense).Mul"), one("mat.VecDense).MulVec"), one("mat.VecDense).SolveVec")
 			copyXT := S.MakeFn(mat+"DenseCopyOf", XT)
-			xtw := fc.Val(mul.Call.Args[1])
+			xtw := mul.fc.Val(mul.Call.Args[1])
 			wantXTW := S.Ite(env.MustParse("weights==nil"), XT, copyXT)
-			b.EqRF(rB, name+"/XTW", a.W.InstrPos(mul), xtw, wantXTW, "XTW is XT when unweighted, else a copy of XT")
-			b.EqRF(rB, name+"/lhs=XTW·X", a.W.InstrPos(mul), fc.Val(mul.Call.Args[2]), X.Invoke("T", XT), "lhs.Mul(XTW, XT.T())")
-			b.EqRF(rB, name+"/rhs uses XTW", a.W.InstrPos(mulv), fc.Val(mulv.Call.Args[1]), xtw, "rhs.MulVec(XTW, ·) uses the same (weighted) matrix")
-			b.EqRF(rB, name+"/rhs=XTW·y", a.W.InstrPos(mulv), fc.Val(mulv.Call.Args[2]), S.MakeFn(mat+"NewVecDense", env.MustParse("len(ys)"), env.Vars["ys"].RF), "y wraps ys")
-			b.EqRF(rB, name+"/solve-lhs", a.W.InstrPos(solve), fc.Val(solve.Call.Args[1]), fc.Val(mul.Call.Args[0]), "SolveVec uses the lhs that Mul filled")
-			b.EqRF(rB, name+"/solve-rhs", a.W.InstrPos(solve), fc.Val(solve.Call.Args[2]), fc.Val(mulv.Call.Args[0]), "SolveVec uses the rhs that MulVec filled")
-			bv := fc.Val(solve.Call.Args[0]).SingleAtom()
+			b.EqRF(rB, name+"/XTW", a.W.InstrPos(mul.in), xtw, wantXTW, "XTW is XT when unweighted, else a copy of XT")
+			b.EqRF(rB, name+"/lhs=XTW·X", a.W.InstrPos(mul.in), mul.fc.Val(mul.Call.Args[2]), X.Invoke("T", XT), "lhs.Mul(XTW, XT.T())")
+			b.EqRF(rB, name+"/rhs uses XTW", a.W.InstrPos(mulv.in), mulv.fc.Val(mulv.Call.Args[1]), xtw, "rhs.MulVec(XTW, ·) uses the same (weighted) matrix")
+			b.EqAt(rB, name+"/rhs=XTW·y", a.W.InstrPos(mulv.in), mulv.fc, mulv.in, mulv.fc.Val(mulv.Call.Args[2]), S.MakeFn(mat+"NewVecDense", env.MustParse("len(ys)"), env.Vars["ys"].RF), "y wraps ys")
+			b.EqRF(rB, name+"/solve-lhs", a.W.InstrPos(solve.in), solve.fc.Val(solve.Call.Args[1]), mul.fc.Val(mul.Call.Args[0]), "SolveVec uses the lhs that Mul filled")
+			b.EqRF(rB, name+"/solve-rhs", a.W.InstrPos(solve.in), solve.fc.Val(solve.Call.Args[2]), mulv.fc.Val(mulv.Call.Args[0]), "SolveVec uses the rhs that MulVec filled")
+			bv := solve.fc.Val(solve.Call.Args[0]).SingleAtom()
 			rv := fc.RetVal(0)
 			if bv != nil && bv.Name == mat+"NewVecDense" && bv.Args[1].Equal(rv) && strings.HasPrefix(rv.SingleAtom().Name, "makeslice:") {
 				b.Eq(rB, name+"/result", b.pos(fn), rv.SingleAtom().Args[0], env, "len(terms)")
 			} else {
 				r.Fail(rB, name+"/result", b.pos(fn), "the returned slice is not the backing array of the solved vector")
 			}
-			if !(fc.Ctx.Dominates(mul.Block(), solve.Block()) && fc.Ctx.Dominates(mulv.Block(), solve.Block())) {
+			if mul.fc == solve.fc && mulv.fc == solve.fc && !(fc.Ctx.Dominates(mul.in.Block(), solve.in.Block()) && fc.Ctx.Dominates(mulv.in.Block(), solve.in.Block())) {
 				r.Fail("C-order", name+"/products-before-solve", b.pos(fn), "SolveVec is not preceded by both products on every path")
 			} else {
 				r.OK("C-order", name+"/products-before-solve", b.pos(fn), "Mul and MulVec dominate SolveVec")
 			}
 			// weighting loop
 			mev := one("mat.VecDense).MulElemVec")
-			row := fc.Val(mev.Call.Args[0])
-			b.EqRF(rB, name+"/weights/in-place", a.W.InstrPos(mev), fc.Val(mev.Call.Args[1]), row, "each row is multiplied in place")
-			b.EqRF(rB, name+"/weights/vector", a.W.InstrPos(mev), fc.Val(mev.Call.Args[2]), S.MakeFn(mat+"NewVecDense", env.MustParse("len(weights)"), env.Vars["weights"].RF), "by the weight vector")
+			row := mev.fc.Val(mev.Call.Args[0])
+			b.EqRF(rB, name+"/weights/in-place", a.W.InstrPos(mev.in), mev.fc.Val(mev.Call.Args[1]), row, "each row is multiplied in place")
+			b.EqRF(rB, name+"/weights/vector", a.W.InstrPos(mev.in), mev.fc.Val(mev.Call.Args[2]), S.MakeFn(mat+"NewVecDense", env.MustParse("len(weights)"), env.Vars["weights"].RF), "by the weight vector")
 			rvw := row.SingleAtom()
 			if rvw == nil || rvw.Name != "call:RowView" || !rvw.Args[0].Equal(copyXT) {
-				r.Fail(rB, name+"/weights/rows-of-copy", a.W.InstrPos(mev), "the rows weighted are not rows of the copy of XT: "+clip(row.String(), 200))
+				r.Fail(rB, name+"/weights/rows-of-copy", a.W.InstrPos(mev.in), "the rows weighted are not rows of the copy of XT: "+clip(row.String(), 200))
 			} else {
 				e2 := X.EnvFor(fn, "xs", "ys", "weights", "terms")
 				e2.Set("row", rvw.Args[1], nil)
 				ri, rn := fc.Recurrence(rvw.Args[1])
-				b.Eq(rB, name+"/weights/rows", a.W.InstrPos(mev), ri.Add(rn), e2, "0+row+1")
+				b.Eq(rB, name+"/weights/rows", a.W.InstrPos(mev.in), ri.Add(rn), e2, "0+row+1")
 				hdr := X.phiOf[rvw.Args[1].SingleAtom().ID].Block()
+				hfc := X.phiFC[rvw.Args[1].SingleAtom().ID]
 				if ifi, ok := hdr.Instrs[len(hdr.Instrs)-1].(*ssa.If); ok {
-					b.Eq(rB, name+"/weights/all-rows", a.W.InstrPos(ifi), fc.Val(ifi.Cond), e2, "row<len(terms)")
+					b.Eq(rB, name+"/weights/all-rows", a.W.InstrPos(ifi), hfc.Val(ifi.Cond), e2, "row<len(terms)")
 				}
-				if !fc.Ctx.Dominates(hdr, mul.Block()) {
+				if !fc.Ctx.Dominates(hdr, mul.in.Block()) {
 					// only on the weighted path; check that the loop cannot be bypassed when weights != nil
 				}
 			}
@@ -300,14 +321,24 @@ func propC15(a *Analysis, r *Registry) {
 				}
 			}
 			// n: binary search
-			cenv.Set("SR", S.MakeFn("sort.Search", S.MakeFn("len", XS).Sub(qv), S.Var("closure:fit.LOESS$1$1", false)), nil)
+			// the start of the window: a sort.Search over len(XS)-q positions with some predicate closure
+			srs := FindFn(n, "sort.Search")
+			if len(srs) != 1 || len(srs[0].Args) != 2 {
+				r.Fail(rB, name+"/window-start", b.pos(cl), "the window start is not found by one sort.Search: "+clip(n.String(), 200))
+				return
+			}
+			b.EqRF(rB, name+"/search-range", b.pos(cl), srs[0].Args[0], S.MakeFn("len", XS).Sub(qv), "the search ranges over the len(xs)-q window positions")
+			cenv.Set("SR", S.atomRF(srs[0].ID), nil)
 			b.Eq(rB, name+"/window-start", b.pos(cl), n, cenv, "ite(q<len(XS), SR, 0)")
-			if pf := a.W.Fn("fit.LOESS$1$1"); pf != nil {
-				pe := X.EnvFor(pf, "i")
+			if pa := srs[0].Args[1].SingleAtom(); pa != nil && X.ClosureFC(pa.ID) != nil {
+				pfc := X.ClosureFC(pa.ID)
+				pe := X.EnvFor(pfc.Fn, "i")
 				pe.Set("XS", XS, nil)
 				pe.Set("q", qv, nil)
 				pe.Set("x", X.ParamRF(cl, 0), nil)
-				b.Eq(rB, name+"/search-predicate", b.pos(pf), X.FCFor(pf).RetVal(0), pe, "x*2<=XS[i]+XS[i+q]")
+				b.Eq(rB, name+"/search-predicate", b.pos(pfc.Fn), pfc.RetVal(0), pe, "x*2<=XS[i]+XS[i+q]")
+			} else {
+				r.Fail(rB, name+"/search-predicate", b.pos(cl), "sort.Search is not given a closure")
 			}
 			// tricube weights
 			wa := wts.SingleAtom()
@@ -336,26 +367,29 @@ func propC15(a *Analysis, r *Registry) {
 				r.Fail(rB, name+"/tricube", b.pos(cl), "expected one weight store")
 			}
 			// sorting on copies only: the sorter wraps fresh copies
-			sfc := fc
 			ok1, ok2 := false, false
-			sfc.Ctx.Instrs(func(in ssa.Instruction) {
-				st, ok := in.(*ssa.Store)
-				if !ok {
-					return
-				}
-				fa, ok := st.Addr.(*ssa.FieldAddr)
-				if !ok || X.typeName(fa.X.Type()) != "pairSlice" {
-					return
-				}
-				v := sfc.Val(st.Val).SingleAtom()
-				if v != nil && v.Name == "builtin:append" && v.Args[0].Equal(S.Var("nil", false)) {
-					if fa.Field == 0 {
-						ok1 = true
-					} else {
-						ok2 = true
+			// (the sorter may be built in LOESS or in a helper that makes the copies)
+			for _, sfc := range fc.BoundCallees(1) {
+				sfc := sfc
+				sfc.Ctx.Instrs(func(in ssa.Instruction) {
+					st, ok := in.(*ssa.Store)
+					if !ok {
+						return
 					}
-				}
-			})
+					fa, ok := st.Addr.(*ssa.FieldAddr)
+					if !ok || X.typeName(fa.X.Type()) != "pairSlice" {
+						return
+					}
+					v := sfc.Val(st.Val).SingleAtom()
+					if v != nil && v.Name == "copyof" {
+						if fa.Field == 0 && v.Args[0].Equal(X.ParamRF(fn, 0)) {
+							ok1 = true
+						} else if fa.Field == 1 && v.Args[0].Equal(X.ParamRF(fn, 1)) {
+							ok2 = true
+						}
+					}
+				})
+			}
 			if ok1 && ok2 {
 				r.OK(rB, name+"/sort-copies", b.pos(fn), "the sorter wraps append(nil, xs...) and append(nil, ys...)")
 			} else {
